@@ -6,6 +6,14 @@ CHECKS = {
              text="Theorems for ALL integers/strings (no grid): six operators agree with lexicographic comparison, trichotomy, Range/Location equality iff components equal, unrelated operands give == False and TypeError, reprs. Re-proved on every run against the methods as translated from the current types.py.",
              note="Trusted: Coq kernel+VM; translator x_pos (AST, fail-closed, run-time origin check of each comparison method); hand model of CPython comparison protocol/total_ordering/f-strings validated by differential runs; str(int) uninterpreted. Axioms: none (Print Assumptions: closed).",
              ref="6/C20"),
+ "C04": dict(cat="proof", tech="Coq: kernel-evaluated image checker W_img over tables regenerated from lsp.json and the imported package, with proved reflection lemmas (ImageThy) and forall-metamodel lemmas on flattening",
+             text="Ground theorem W_img mm Sg = true (vm_compute, exhaustive over every structure / flattened property / enumeration value / alias of the current tree, both directions), whose meaning is given by proved reflection lemmas (C04_structures: one attribute per flattened property satisfying FieldSpec, nothing extra); plus lemmas for every metamodel: flattened names unique, own declaration wins.",
+             note="Trusted: Coq kernel+VM; translators x_mm, x_pkg (introspection of the imported module incl. cattrs overrides); the specification functions py_of/expected_* of Image.v are the pinned reading of 'documented mapping'. Search: s_image.py compares real attrs metadata with the metamodel independently. Axioms: none.",
+             ref="6/C04"),
+ "C12": dict(cat="proof", tech="Coq proof over validator bodies translated from validators.py (all Z, all pv) + instance table of integer properties + model/real correspondence and boundary-grid search at both entry points",
+             text="For ALL ints the translated validators accept exactly [-2^31,2^31-1] / [0,2^31-1]; for ALL model values they return True or raise ValueError naming class and attribute; the converter model's range test is proved equal to the translated validators; every integer-typed flattened property carries the right validator (instance, exhaustive); constructor and converter verdicts are proved equal to the range test for every such property and every int.",
+             note="Trusted: Coq kernel+VM; translators x_val (AST), x_mm, x_pkg; model of Python numeric comparison / short-circuit in Val.v (validated on a value palette against the real functions); universe of 'any argument' is pv. Axioms: none.",
+             ref="6/C12"),
 }
 ALL = ["C%02d" % i for i in range(1, 21)]
 def main():
